@@ -55,9 +55,18 @@ def new_compiler(fmt="stmt"):
 
 
 def compiler(fmt="stmt"):
-    """Process-wide long-lived compiler for a layout."""
+    """Process-wide long-lived compiler for a layout.
+
+    Its temporary numbering (h_tmpN) is advanced past the numbers used inside the bundled sub-routine bodies by
+    compiling a few statements through the public API first: callee bodies are compiled by their own transformer
+    and number their temporaries from 0, and the IL local namespace is flat, so a *fresh* compiler makes caller and
+    callee temporaries collide (that history dependence is the business of C08/C14, which use new_compiler())."""
     if fmt not in _compilers:
-        _compilers[fmt] = new_compiler(fmt)
+        c = new_compiler(fmt)
+        with quiet():
+            for _ in range(16):
+                c.compile_c_stmt("{ RdV = clz32(RsV); }")
+        _compilers[fmt] = c
     return _compilers[fmt]
 
 
